@@ -7,8 +7,16 @@ rm -rf "$d"; git -C /repo worktree prune
 git -C /repo worktree add --detach "$d" HEAD >/dev/null 2>&1
 mkdir -p "$d/out"
 python3 - "$pid" "$d" <<'P'
-import json,sys
+import json,sys,os
 pid,d=sys.argv[1],sys.argv[2]
+extra=""
+if not d.endswith("-a") and os.path.exists("/tmp/used_sites.json"):
+    u=json.load(open("/tmp/used_sites.json")).get(pid,[])
+    if u:
+        extra=("\n## Already taken (another engineer did these; pick DIFFERENT functions and mechanisms)\n\n"+"\n".join("* "+x for x in u)+
+          "\n\nGo for the less central parts of what the property covers: secondary functions named in the anchors, in-place (`&mut self`) twins, by-reference operand forms and trait impls for `&T`, "
+          "one particular vector size or kind (Vec8..Vec64, Extent, Rgb/Rgba, Uv/Uvw - enable cargo features as needed and say so), one matrix size or layout, conversions between types, "
+          "clamped vs unclamped / precise vs fast variants, deprecated aliases, degenerate-input branches, behaviour that only differs after a *sequence* of calls.\n")
 p=[json.loads(l) for l in open('/verif/properties.jsonl') if json.loads(l)['id']==pid][0]
 open(d+'/out/BRIEF.md','w').write(f"""# Brief: seed two property-breaking changes into the `vek` crate
 
@@ -23,6 +31,7 @@ do not read anything under `/verif`). There is no network; everything needed is 
 {json.dumps(p,indent=1)}
 ```
 
+{extra}
 ## What to produce
 
 TWO independent source changes to vek (call them A and B; different mechanisms / different functions), each of which:
